@@ -1662,7 +1662,7 @@ func (x *Exec) sliceOp(st *State, so *ssa.Slice) Val {
 			goal = and(goal, sx("<=", mx, cp))
 		}
 		x.oblige(st, "slice", so.Pos(), goal, "", nil)
-		return Val{T: so.Type(), S: c.def("sl", "Slice", mkSlice(sRef(base.S), sx("+", sOff(base.S), lo), sx("-", hi, lo), sx("-", lim, lo)))}
+		return Val{T: so.Type(), S: c.def("sl", "Slice", mkSlice(sRef(base.S), iadd(sOff(base.S), lo), isub(hi, lo), isub(lim, lo)))}
 	case *types.Basic: // string
 		if hi == "" {
 			hi = sx("gstr_len", base.S)
@@ -1686,7 +1686,7 @@ func (x *Exec) sliceOp(st *State, so *ssa.Slice) Val {
 		if base.P != nil {
 			panic(unsupported("slicing an array held in a local cell"))
 		}
-		return Val{T: so.Type(), S: c.def("sl", "Slice", mkSlice(base.S, lo, sx("-", hi, lo), sx("-", lim, lo)))}
+		return Val{T: so.Type(), S: c.def("sl", "Slice", mkSlice(base.S, lo, isub(hi, lo), isub(lim, lo)))}
 	}
 	panic(unsupported("Slice on " + so.X.Type().String()))
 }
